@@ -14,6 +14,7 @@ LEAN_MODULE = "Kio.Props.C01"
 THEOREMS = [
     "Kio.C01.roundtrip", "Kio.C01.buildable", "Kio.C01.shipped_coherent", "Kio.C01.shipped",
     "Kio.C01.prim_roundtrip", "Kio.C01.float_exact",
+    "Kio.C01.roundtrip_eq", "Kio.C01.roundtrip_canon", "Kio.C01.negative_zero_witness",
 ]
 
 
